@@ -178,9 +178,42 @@ def run(ctx):
             r = F().visit(x)
             out.extend(r if isinstance(r, list) else [r])
         return [x for x in out if x is not None]
+    def propagate(stmts):
+        """constants assigned to locals are substituted in the statements that follow and the tests they decide are folded"""
+        consts = {}
+
+        class Sub(ast.NodeTransformer):
+            def visit_Name(self, n):
+                if isinstance(n.ctx, ast.Load) and n.id in consts:
+                    return ast.Constant(value=consts[n.id])
+                return n
+
+        def block(bl):
+            out = []
+            for st_ in bl:
+                st_ = Sub().visit(st_)
+                if isinstance(st_, ast.Assign) and len(st_.targets) == 1 and isinstance(st_.targets[0], ast.Name):
+                    if isinstance(st_.value, ast.Constant):
+                        consts[st_.targets[0].id] = st_.value.value
+                        continue
+                    consts.pop(st_.targets[0].id, None)
+                if isinstance(st_, ast.If):
+                    from ..normalize import _const_truth
+                    t = _const_truth(st_.test)
+                    if t is not None:
+                        out.extend(block(st_.body if t else st_.orelse))
+                        continue
+                    consts.clear()
+                for fld in ("body", "orelse", "finalbody"):
+                    sub = getattr(st_, fld, None)
+                    if isinstance(sub, list) and sub and isinstance(sub[0], ast.stmt) and not isinstance(st_, (ast.FunctionDef, ast.For, ast.While)):
+                        setattr(st_, fld, block(sub))
+                out.append(st_)
+            return out
+        return block(stmts)
     branches = {}
     for case, env in CASES.items():
-        body = specialise(jw.node.body, env)
+        body = propagate(specialise(jw.node.body, env))
         ws = [x for x in A.walk_stmts(body) if isinstance(x, ast.With) and open_call(x)[0] is not None]
         branches[case] = ws[0] if len(ws) == 1 else None
     want = {
@@ -267,7 +300,20 @@ def run(ctx):
     st = branches.get("name == 'start'")
     fn_stores = [s_ for s_ in A.walk_stmts(specialise(jw.node.body, CASES["name == 'start'"])) if isinstance(s_, ast.Assign) and A.norm(s_.targets[0]) == "self.filename"]
     other_stores = [s_ for case in ("name == 'stop'", "else") for s_ in A.walk_stmts(specialise(jw.node.body, CASES[case])) if isinstance(s_, ast.Assign) and A.norm(s_.targets[0]) == "self.filename"]
-    ok = bool(fn_stores) and all(A.norm(s_.value).startswith("self.filename or ") for s_ in fn_stores) and not other_stores
+    spec_start = specialise(jw.node.body, CASES["name == 'start'"])
+    pm_ = {}
+    for n_ in ast.walk(ast.Module(body=spec_start, type_ignores=[])):
+        for c_ in ast.iter_child_nodes(n_):
+            pm_[c_] = n_
+
+    def keeps_given(s_):
+        """`self.filename = self.filename or <default>`, or the store sits under `if not self.filename:`"""
+        if A.norm(s_.value).startswith("self.filename or "):
+            return True
+        up_ = pm_.get(s_)
+        return isinstance(up_, ast.If) and s_ in up_.body and A.norm(up_.test) in ("not self.filename", "self.filename is None")
+    fn_stores = [s_ for s_ in A.walk_stmts(spec_start) if isinstance(s_, ast.Assign) and A.norm(s_.targets[0]) == "self.filename"]
+    ok = bool(fn_stores) and all(keeps_given(s_) for s_ in fn_stores) and not other_stores
     ctx.ob("C34.D2-open-modes", cname(jw, None, "JSONWriter keeps a given filename"), ok, "" if ok else "filename overwritten", where=where(jw, jw.node))
 
 
